@@ -1185,7 +1185,13 @@ class DictTerm(PreTerm):
         # can't use == as that builds a larger expression
         if not isinstance(other, DictTerm):
             return False
-        return self.value == other.value
+        # same keys and values, of the same types, in the same order (the order of the SQL CASE arms)
+        if len(self.value) != len(other.value):
+            return False
+        return all(
+            _same_constant(lk, rk) and _same_constant(lv, rv)
+            for (lk, lv), (rk, rv) in zip(self.value.items(), other.value.items())
+        )
 
     def act_on(self, arg, *, expr_walker: ExpressionWalker):
         """
